@@ -31,6 +31,10 @@ type Document struct {
 	parts map[string][]byte
 	// 图片ID计数器，确保每个图片都有唯一的ID
 	nextImageID int
+	// 脚注/尾注管理器（按文档独立）
+	footnoteManager *FootnoteManager
+	// 列表编号管理器（按文档独立）
+	numberingManager *NumberingManager
 }
 
 // Body 表示文档主体
